@@ -1,5 +1,6 @@
 import PlasVerif.Driver.Util
 import PlasVerif.Spec.Isolation
+import PlasVerif.Model.ClassCache
 namespace PlasVerif.Driver.C17
 open PlasVerif.Driver PlasVerif.Model.GlobalState PlasVerif.Spec.Isolation PlasVerif.Generated.GlobalState
 
@@ -9,10 +10,11 @@ def bit? : String → Option Bool
 
 def tyStr : ArgTy → String
   | .number => "number" | .dimen => "dimen" | .tok => "tok" | .args => "args" | .any => "any"
-  | .optnone => "optnone" | .normal => "normal"
+  | .optnone => "optnone" | .normal => "normal" | .numreg => "numreg" | .dimenreg => "dimenreg" | .gluereg => "gluereg"
 def ty? : String → Option ArgTy
   | "number" => some .number | "dimen" => some .dimen | "tok" => some .tok | "args" => some .args
-  | "any" => some .any | "optnone" => some .optnone | "normal" => some .normal | _ => none
+  | "any" => some .any | "optnone" => some .optnone | "normal" => some .normal
+  | "numreg" => some .numreg | "dimenreg" => some .dimenreg | "gluereg" => some .gluereg | _ => none
 def clsStr : Cls → String
   | .article => "article" | .book => "book" | .report => "report"
 def cls? : String → Option Cls
@@ -26,6 +28,7 @@ def ev? (w : String) : Option Ev :=
   | ["bo"] => some .boxOpen | ["bc"] => some .boxClose
   | ["lb"] => some .listBegin | ["le"] => some .listEnd | ["it"] => some .item
   | ["as", r, x] => do pure (.assign (← r.toNat?) (← x.toInt?))
+  | ["cp", r, q] => do pure (.copy (← r.toNat?) (← q.toNat?))
   | ["us", r] => do pure (.use (← r.toNat?))
   | ["ar", t] => do pure (.arg (← ty? t))
   | ["dc", c] => do pure (.docclass (← cls? c))
@@ -38,7 +41,7 @@ def ev? (w : String) : Option Ev :=
 def outStr : Out → String
   | .mopen k => s!"mo:{mkStr k}" | .mclose k => s!"mc:{mkStr k}"
   | .bo => "bo" | .bc => "bc" | .lb => "lb" | .le => "le" | .item i => s!"it:{i}"
-  | .asg r x => s!"as:{r}:{x}" | .asg0 r => s!"as0:{r}" | .text x => s!"tx:{x}" | .use r x => s!"us:{r}:{x}"
+  | .asg r x => s!"as:{r}:{x}" | .asg0 r => s!"as0:{r}" | .text x => s!"tx:{x}" | .eqsign => "tx:=" | .use r x => s!"us:{r}:{x}"
   | .arg t => s!"ar:{tyStr t}" | .dc c => s!"dc:{clsStr c}" | .idx b => s!"ix:{b01 b}"
   | .newcol n => s!"nc:{n}" | .col n k => s!"uc:{n}:{b01 k}"
   | .paren b e => s!"pm:{b01 b}{b01 e}" | .node k => s!"nd:{k}" | .unk => "unk"
@@ -113,6 +116,40 @@ def runSpec (v : Variant) : List (List Ev) → List String
     let wc := last && !v.colsDoc && definesCol d
     s!"{traceStr (canon (process v fresh d).2)} # {snapStr init wr wi wc}" :: runSpec v ds
 
+/-! stream `ccache`:  `<inherit bit> c<id>:<mro ids, most derived first>:<own k=v,..|-> … | <ids looked up>` -/
+section CC
+open PlasVerif.Model.ClassCache
+
+def kv? (s : String) : Option (Nat × Nat) :=
+  match s.splitOn "=" with
+  | [k, v] => do pure (← k.toNat?, ← v.toNat?)
+  | _ => none
+
+def cls3? (w : String) : Option (Nat × List Nat × Table) :=
+  match w.splitOn ":" with
+  | [c, m, o] => do
+    let c ← (c.drop 1).toString.toNat?
+    let m ← nats? m
+    let o ← if o == "-" then some [] else (o.splitOn ",").mapM kv?
+    pure (c, m, o)
+  | _ => none
+
+def tableStr (t : Table) : String :=
+  let ks := (t.map (·.1)).foldr insertSorted []
+  if ks.isEmpty then "-" else ",".intercalate (ks.map fun k => s!"{k}={(t.lookup k).getD 0}")
+
+def handleCC (inh : String) (rest : List String) : String :=
+  let (cw, lw) := splitAt1 "|" rest
+  match bit? inh, cw.mapM cls3?, natList? lw with
+  | some i, some cs, some ls =>
+    let mro : Nat → List Nat := fun c => ((cs.lookup c).map (·.1)).getD [c]
+    let own : Nat → Table := fun c => ((cs.lookup c).map (·.2)).getD []
+    let f := computeLocals mro own
+    let model := (lookups i mro f [] ls).2
+    s!"{" ; ".intercalate (model.map tableStr)}\t{" ; ".intercalate ((ls.map f).map tableStr)}"
+  | _, _, _ => "bad-op"
+end CC
+
 def handle : List String → String
   | "gstate" :: vb :: rest | "gleak" :: vb :: rest =>
     let (st, docs) := splitAt1 "|" rest
@@ -122,6 +159,7 @@ def handle : List String → String
       let spec := if st == ["I"] then " ; ".intercalate (runSpec v ds) else "-"
       s!"{model}\t{spec}"
     | _, _, _ => "bad-op"
+  | "ccache" :: inh :: rest => handleCC inh rest
   | _ => "bad-op"
 
 end PlasVerif.Driver.C17
